@@ -100,6 +100,13 @@ def gen_histories(ck, n, steps):
                 pos = rng.randrange(est + 2)
                 k = rng.choice([0, 1, rng.randrange(est + 2), max(est - pos, 0)])
                 beh.append({"a": op, "arg": {"pos": pos, "n": k}})
+                if rng.random() < 0.25:
+                    # positions just below SIZE_MAX: pos + n wraps around to a small number
+                    k = rng.choice([1, 2, 8, max(est, 1)])
+                    far = rng.choice([1, 2, k, max(k - 1, 1), k + 1])
+                    beh.append({"a": rng.choice(["get", "get", "set", "crop"]), "arg": {"pos": far, "n": k, "far": 1}})
+                    if beh[-1]["a"] == "set":
+                        beh[-1]["arg"] = {"pos": far, "data": fresh(k), "zero": 0, "far": 1}
             elif op == "align":
                 beh.append({"a": op, "arg": {"pos": rng.choice([0, 1, rng.randrange(cap + 2), cap - 1, cap])}})
             elif op == "string":
